@@ -707,18 +707,27 @@ impl IdlArcSqliteWriteTransaction<'_> {
             })?;
 
         // Ensure the db commit succeeds first.
+        #[cfg(feature = "verif-hooks")] crate::verif_hooks::fault::pause_point("w.arc.flushed");
         db.commit()?;
+        #[cfg(feature = "verif-hooks")] crate::verif_hooks::fault::pause_point("w.arc.db");
 
         // Can no longer fail from this point.
         op_ts_max.commit();
+        #[cfg(feature = "verif-hooks")] crate::verif_hooks::fault::pause_point("w.arc.ts");
         name_cache.commit();
+        #[cfg(feature = "verif-hooks")] crate::verif_hooks::fault::pause_point("w.arc.name");
         idx_exists_cache.commit();
+        #[cfg(feature = "verif-hooks")] crate::verif_hooks::fault::pause_point("w.arc.idx_exists");
         idl_cache.commit();
+        #[cfg(feature = "verif-hooks")] crate::verif_hooks::fault::pause_point("w.arc.idl");
         allids.commit();
+        #[cfg(feature = "verif-hooks")] crate::verif_hooks::fault::pause_point("w.arc.allids");
         maxid.commit();
         keyhandles.commit();
+        #[cfg(feature = "verif-hooks")] crate::verif_hooks::fault::pause_point("w.arc.keyh");
         // Unlock the entry cache last to remove contention on everything else.
         entry_cache.commit();
+        #[cfg(feature = "verif-hooks")] crate::verif_hooks::fault::pause_point("w.arc.entry");
 
         Ok(())
     }
@@ -1362,12 +1371,19 @@ impl IdlArcSqlite {
 
     pub fn read(&self) -> Result<IdlArcSqliteReadTransaction<'_>, OperationError> {
         // IMPORTANT! Always take entrycache FIRST
+        #[cfg(feature = "verif-hooks")] crate::verif_hooks::fault::pause_point("r.arc.start");
         let entry_cache_read = self.entry_cache.read();
+        #[cfg(feature = "verif-hooks")] crate::verif_hooks::fault::pause_point("r.arc.entry");
         let db_read = self.db.read()?;
+        #[cfg(feature = "verif-hooks")] crate::verif_hooks::fault::pause_point("r.arc.db");
         let idl_cache_read = self.idl_cache.read();
+        #[cfg(feature = "verif-hooks")] crate::verif_hooks::fault::pause_point("r.arc.idl");
         let name_cache_read = self.name_cache.read();
+        #[cfg(feature = "verif-hooks")] crate::verif_hooks::fault::pause_point("r.arc.name");
         let idx_exists_cache_read = self.idx_exists_cache.read();
+        #[cfg(feature = "verif-hooks")] crate::verif_hooks::fault::pause_point("r.arc.idx_exists");
         let allids_read = self.allids.read();
+        #[cfg(feature = "verif-hooks")] crate::verif_hooks::fault::pause_point("r.arc.allids");
 
         Ok(IdlArcSqliteReadTransaction {
             db: db_read,
